@@ -21,6 +21,10 @@ var scripts = map[string]func(rn *Runner){
 	"cfgquorum":   scriptCfgQuorum,
 	"staletn":     scriptStaleTN,
 	"promote":     scriptPromote,
+	"dupae":       scriptDupAE,
+	"monofail":    scriptMonoFail,
+	"snaptrunc":   scriptSnapTrunc,
+	"snapleader":  scriptSnapLeader,
 }
 
 func (rn *Runner) el() time.Duration {
@@ -845,5 +849,184 @@ func scriptSnapCfgRC(rn *Runner) {
 		for _, nd := range c.Nodes {
 			c.Reading(nd, "quiet")
 		}
+	}
+}
+
+func (rn *Runner) stableLeader() *Node {
+	L := rn.waitLeader(nil, 30)
+	if L == nil {
+		return nil
+	}
+	time.Sleep(rn.el())
+	return rn.waitLeader(nil, 30)
+}
+
+func (rn *Runner) othersOf(L *Node) []*Node {
+	var out []*Node
+	for _, nd := range rn.C.Nodes {
+		if nd != L && nd.Cur() != nil {
+			out = append(out, nd)
+		}
+	}
+	rn.rng.Shuffle(len(out), func(i, j int) { out[i], out[j] = out[j], out[i] })
+	return out
+}
+
+// scriptDupAE (C03, C06): the network delivers an AppendEntries request a second time, after the
+// follower has stored (and acknowledged) later entries; nothing else follows because the leader
+// dies. The follower must still know how long its log is: the other follower, which lacks the later
+// (committed) entries, must not get its vote, and if the follower wins itself it must append behind
+// what it holds.
+func scriptDupAE(rn *Runner) {
+	c := rn.C
+	hb := time.Duration(rn.Sc.P.HeartbeatMs) * time.Millisecond
+	for round := 0; round < 3; round++ {
+		L := rn.stableLeader()
+		if L == nil {
+			return
+		}
+		o := rn.othersOf(L)
+		if len(o) < 2 {
+			return
+		}
+		G := o[0]
+		d := hb * time.Duration(pick(rn.rng, 2, 3)) / 2
+		rn.note("L=%s G=%s: AppendEntries repeated after %v", L.name, G.name, d)
+		c.Net.SetKindDup("ae", d)
+		rn.applyBurst(L, 2+rn.rng.Intn(4), "da") // burst A: everybody stores it
+		time.Sleep(d / 3)
+		rn.cutOff(G) // G keeps A and misses B
+		time.Sleep(d / 6)
+		rn.applyBurst(L, 2+rn.rng.Intn(4), "db") // burst B: committed without G
+		time.Sleep(d/2 + 5*time.Millisecond)     // the copies of burst A's requests have arrived by now
+		c.Crash(L)
+		c.Net.SetKindDup("ae", 0)
+		c.Net.Heal()
+		time.Sleep(5 * rn.el())
+		c.Start(L)
+		time.Sleep(3 * rn.el())
+	}
+}
+
+// scriptMonoFail (C04, C11): a deposed leader on a store that cannot hold gaps keeps an uncommitted
+// suffix of its old term; the cluster moves on, snapshots and compacts; when the old leader is sent
+// the snapshot its DeleteRange fails (the wholesale reset cannot be done). Whatever it then accepts
+// from the new leader must not end up below the stale entries.
+func scriptMonoFail(rn *Runner) {
+	c := rn.C
+	for round := 0; round < 2; round++ {
+		L := rn.stableLeader()
+		if L == nil {
+			return
+		}
+		rn.applyBurst(L, 2+rn.rng.Intn(3), "ma")
+		time.Sleep(rn.el() / 2)
+		rn.cutOff(L)
+		rn.applyBurst(L, 3+rn.rng.Intn(8), "mstale")
+		N := rn.waitNewLeader(L, nil, 20*rn.Sc.P.ElectionMs)
+		if N == nil {
+			c.Net.Heal()
+			continue
+		}
+		rn.applyBurst(N, 2+rn.rng.Intn(12), "mnew")
+		time.Sleep(rn.el())
+		c.Snapshot(90, N)
+		time.Sleep(rn.el() / 2)
+		rn.note("L=%s (stale suffix, deletes fail) N=%s", L.name, N.name)
+		L.disk.FailAfter("del", 0)
+		c.Net.Heal()
+		time.Sleep(2 * rn.el())
+		rn.applyBurst(N, 1+rn.rng.Intn(3), "mlate")
+		time.Sleep(rn.el())
+		L.disk.Disarm()
+		if rn.rng.Intn(2) == 0 {
+			c.Crash(L)
+			time.Sleep(rn.el() / 2)
+			c.Start(L)
+		}
+		time.Sleep(3 * rn.el())
+	}
+}
+
+// scriptSnapTrunc (C11): a server snapshots while its log still carries a long uncommitted suffix;
+// persisting is slow, and meanwhile a new leader replaces that suffix by a shorter one. The
+// compaction that follows has to count TrailingLogs from the log as it is then.
+func scriptSnapTrunc(rn *Runner) {
+	c := rn.C
+	for round := 0; round < 2; round++ {
+		L := rn.stableLeader()
+		if L == nil {
+			return
+		}
+		rn.applyBurst(L, 6+rn.rng.Intn(6), "sa")
+		time.Sleep(rn.el())
+		rn.cutOff(L)
+		rn.applyBurst(L, 20+rn.rng.Intn(30), "sstale")
+		time.Sleep(rn.el() / 4)
+		l := L
+		rn.bg(func() { c.Snapshot(90, l) }) // Persist takes several election timeouts
+		N := rn.waitNewLeader(L, nil, 20*rn.Sc.P.ElectionMs)
+		if N == nil {
+			c.Net.Heal()
+			time.Sleep(8 * rn.el())
+			continue
+		}
+		rn.applyBurst(N, 1+rn.rng.Intn(3), "snew")
+		time.Sleep(rn.el() / 4)
+		rn.note("L=%s is persisting a snapshot; N=%s replaces its suffix", L.name, N.name)
+		c.Net.Heal()
+		time.Sleep(time.Duration(rn.Sc.P.PersistDelayMs)*time.Millisecond + 3*rn.el())
+	}
+}
+
+// scriptSnapLeader (C18): follower F is being sent a snapshot by leader L1 of term T; restoring it
+// takes several election timeouts, and meanwhile the rest elects L2 in term T+1, whose heartbeat
+// reaches F on the transport's fast path. When the install finally completes F is a follower of
+// term T+1 - and must not name L1.
+func scriptSnapLeader(rn *Runner) {
+	c := rn.C
+	hb := time.Duration(rn.Sc.P.HeartbeatMs) * time.Millisecond
+	for round := 0; round < 2; round++ {
+		L1 := rn.stableLeader()
+		if L1 == nil {
+			return
+		}
+		o := rn.othersOf(L1)
+		if len(o) < 4 {
+			return
+		}
+		F := o[0]
+		rn.cutOff(F)
+		rn.applyBurst(L1, 6+rn.rng.Intn(6), "la")
+		time.Sleep(rn.el())
+		c.Snapshot(90, L1)
+		time.Sleep(rn.el() / 2)
+		if c.Leader() != L1 {
+			c.Net.Heal()
+			continue
+		}
+		rn.note("L1=%s sends its snapshot to F=%s and loses the others", L1.name, F.name)
+		c.Net.Heal()
+		rn.cutGroups(map[*Node]bool{L1: true, F: true})
+		rest := map[*Node]bool{}
+		for _, nd := range o[1:] {
+			rest[nd] = true
+		}
+		L2 := rn.waitNewLeader(L1, rest, 20*rn.Sc.P.ElectionMs)
+		if L2 == nil {
+			c.Net.Heal()
+			time.Sleep(time.Duration(rn.Sc.P.RestoreDelayMs) * time.Millisecond)
+			continue
+		}
+		// a short window in which L2's heartbeats reach F (and depose L1); then F hears nobody
+		c.Net.Heal()
+		time.Sleep(hb / 3)
+		rn.cutOff(F)
+		for i := 0; i < 2*rn.Sc.P.RestoreDelayMs/5+10; i++ {
+			time.Sleep(5 * time.Millisecond)
+			c.Sample(F)
+		}
+		c.Net.Heal()
+		time.Sleep(3 * rn.el())
 	}
 }
